@@ -40,6 +40,7 @@ RULE += (' Also: await_each over a lazy input that keeps none of its awaitables 
 RULE += (' Also: a queue (deque) handed to await_each and filled further before the first request.')
 RULE += (' Also: sync() of built-in callables (next, bound list.pop / dict.get, getattr, operator.getitem) handing out stored awaitables.')
 RULE += (' Also: sync() wrappers called with keywords of any name (function, self, args ...) and, stored as class attributes, through instances.')
+RULE += (" Also: the caller's one-shot iterator (synchronous or asynchronous) is still usable, with everything not taken, after an any_iter stream over it was closed early.")
 ASSUMPTIONS = ["direct specification oracle (no stdlib twin exists for these helpers)"]
 EXHAUSTIVE = {"quick": True, "thorough": True}
 MAX_SHARDS = 8
@@ -515,6 +516,28 @@ def run_any_iter(case, stats):
         for c in cont:
             if hasattr(c, "close") and hasattr(c, "cr_frame"):
                 c.close()
+    if case["cont"] not in ("list", "falsy_list", "dual") and case["steps"] <= n:
+        # the source is the CALLER's one-shot iterator, synchronous or asynchronous alike: closing the any_iter stream
+        # early leaves it usable, with everything that was not taken still in it
+        rest = []
+
+        async def drain():
+            if hasattr(cont, "__anext__"):
+                async for c in cont:
+                    rest.append(c)
+            else:
+                rest.extend(cont)
+
+        if not (case["outer_aw"] and case["steps"] == 0):  # (an awaitable source never awaited was never reached)
+            drive(drain())
+            stats["sources_reused_after_an_early_close"] += 1
+            if len(rest) != n - case["steps"]:
+                viols.append({"key": "any_iter/touches-what-was-not-asked-for",
+                              "msg": f"any_iter {case}: after {case['steps']} steps and aclose() the caller's iterator still "
+                                     f"gives {len(rest)} of the {n - case['steps']} items that were not taken"})
+            for c in rest:
+                if hasattr(c, "close") and hasattr(c, "cr_frame"):
+                    c.close()
     if case["outer_aw"] is True and case["steps"] == 0:
         arg.close()
     if CTX.foreign:
